@@ -455,7 +455,7 @@ func firstLine(s string) string {
 func init() {
 	mc.Register(&mc.Check{
 		Prop:        "C04",
-		Rule:        "every (function-value kind x lifetime) and every (producer-form set x consumer parameter shape x lifetimes) configuration is built on the real container, the consumer and the whole identity universe (14 types x 3 keys, 14 types x 2 groups) are resolved; an outcome is the canonical observation string of one configuration (distinct = different strings)",
+		Rule:        "every (function-value kind x lifetime) and every (producer-form set x consumer parameter shape x lifetimes) configuration is built on the real container, the consumer and the whole identity universe (14 types x 3 keys, 14 types x 2 groups) are resolved; plus replaced outputs: one output of a multi-return / result-object / two-alias registration removed and registered again with another constructor (3 x 3 lifetimes, either output, with and without a consumer of both identities, both request orders in two scopes): every identity must come from the constructor now registered for it; an outcome is the canonical observation string of one configuration (distinct = different strings)",
 		Assume:      []string{"reference registry model in props/model.go (written from the documentation)", "constructors are reflect.MakeFunc / handwritten functions that record their own invocation"},
 		MinOutcomes: 10,
 		Jobs: func(tier string) []mc.Job {
@@ -463,6 +463,7 @@ func init() {
 				{Name: "fnkinds", Run: c04FnKinds},
 				{Name: "forms-1", Run: func(r *mc.Report) { c04Forms(r, 1) }},
 				{Name: "forms-2", Run: func(r *mc.Report) { c04Forms(r, 2) }},
+				{Name: "replaced-output", Run: c04Replace},
 			}
 		},
 	})
@@ -568,6 +569,136 @@ func forEachFormCase(r *mc.Report, nprod int, run func(c formCase)) {
 						if lf[0] == "singleton" && lf[1] == "singleton" {
 							run(formCase{Prod: []string{a.Name, b.Name}, Shape: shape, ProdLife: lf[0], ConsLife: lf[1], ConsFirst: true})
 						}
+					}
+				}
+			}
+		}
+	}
+}
+
+// ---- replaced outputs: one output of a multi-output registration is removed and registered
+// again with a DIFFERENT constructor (the documented Remove + Add mock-replacement recipe)
+
+type c04ReplaceCase struct {
+	Life     string `json:"life"`
+	Form     string `json:"form"`    // multi | resobj | alias2
+	Replace  int    `json:"replace"` // index of the replaced output
+	ReplLife string `json:"repl_life"`
+	Consumer bool   `json:"consumer"` // a consumer taking both identities
+}
+
+func c04Replace(r *mc.Report) {
+	run := func(c c04ReplaceCase) {
+		r0 := kit.Reg{ID: 0, Life: c.Life}
+		var ids []Ident
+		switch c.Form {
+		case "multi":
+			r0.Outs = []kit.Out{{T: "P0"}, {T: "P1"}}
+			ids = []Ident{{T: "P0"}, {T: "P1"}}
+		case "resobj":
+			r0.ResObj = true
+			r0.Outs = []kit.Out{{T: "P0"}, {T: "P1", Key: "k1"}}
+			ids = []Ident{{T: "P0"}, {T: "P1", Key: "k1"}}
+		case "alias2":
+			r0.Outs = []kit.Out{{T: "D2"}}
+			r0.As = []string{"IA", "IB"}
+			ids = []Ident{{T: "IA"}, {T: "IB"}}
+		}
+		id := ids[c.Replace]
+		r1 := kit.Reg{ID: 1, Life: c.ReplLife, Outs: []kit.Out{{T: id.T}}, Name: id.Key}
+		if c.Form == "alias2" {
+			r1.Outs = []kit.Out{{T: "D3"}}
+			r1.As = []string{id.T}
+		}
+		spec := kit.Spec{Regs: []kit.Reg{r0, r1}}
+		if c.Consumer {
+			cons := kit.Reg{ID: 2, Life: "transient", In: true, Outs: []kit.Out{{T: "D5"}}}
+			for _, x := range ids {
+				cons.Deps = append(cons.Deps, kit.Dep{T: x.T, Key: x.Key})
+			}
+			if c.Life == "scoped" || c.ReplLife == "scoped" {
+				cons.Life = "scoped"
+			}
+			spec.Regs = append(spec.Regs, cons)
+		}
+		var e *Env
+		var m *Model
+		s := seqOnce(func() {
+			e = NewEnv(&spec)
+			e.Coll = godiNewCollection()
+			m = &Model{Spec: &spec, Services: map[Ident]RegOut{}, Groups: map[Ident][]RegOut{}, regs: map[int]*kit.Reg{}}
+			e.AddErrs = append(e.AddErrs, e.W.Add(e.Coll, &spec.Regs[0]))
+			m.AddErr = append(m.AddErr, m.Add(&spec.Regs[0]))
+			if id.Key == "" {
+				e.Coll.Remove(kit.TypeOf(id.T))
+			} else {
+				e.Coll.RemoveKeyed(kit.TypeOf(id.T), id.Key)
+			}
+			m.Remove(id.T, id.Key)
+			for i := 1; i < len(spec.Regs); i++ {
+				e.AddErrs = append(e.AddErrs, e.W.Add(e.Coll, &spec.Regs[i]))
+				m.AddErr = append(m.AddErr, m.Add(&spec.Regs[i]))
+			}
+			p, did := kit.Try(func() { e.Prov, e.BuildErr = e.Coll.Build() })
+			if did {
+				e.BuildPanic = p
+			}
+			if e.Prov != nil {
+				e.Do(Op{Kind: "scope", Bind: "s1"})
+				// both request orders: the kept output first / the replaced output first
+				for _, x := range ids {
+					e.Do(Op{Kind: "get", Scope: "s1", T: x.T, Key: x.Key})
+				}
+				if c.Consumer {
+					e.Do(Op{Kind: "get", Scope: "s1", T: "D5"})
+				}
+				e.Do(Op{Kind: "scope", Bind: "s2"})
+				for i := len(ids) - 1; i >= 0; i-- {
+					e.Do(Op{Kind: "get", Scope: "s2", T: ids[i].T, Key: ids[i].Key})
+				}
+				for _, x := range ids {
+					e.Do(Op{Kind: "get", Scope: "s2", T: x.T, Key: x.Key})
+				}
+				e.Do(Op{Kind: "close", Scope: ""})
+			}
+		})
+		r.Executions++
+		r.Validated++
+		r.States++
+		r.Transitions += int64(len(e.Results) + 4)
+		var fs []Finding
+		for i, ae := range e.AddErrs {
+			if ae != nil {
+				fs = append(fs, Finding{feat("clause", "valid-registration-rejected", "step", fmt.Sprint(i)), fmt.Sprintf("registration %d failed: %v", i, ae)})
+			}
+		}
+		if e.BuildErr != nil || e.BuildPanic != nil {
+			fs = append(fs, Finding{feat("clause", "valid-set-rejected"), fmt.Sprintf("Build failed: %v %v", e.BuildErr, e.BuildPanic)})
+		}
+		if e.Prov != nil {
+			fs = append(fs, e.ProbeOracle(m)...)
+			fs = append(fs, e.WiringOracle(m)...)
+		}
+		fs = append(fs, genericFindings(nil, s)...)
+		r.Outcome(fmt.Sprintf("replace %s/%s out%d by %s consumer=%v | %s", c.Form, c.Life, c.Replace, c.ReplLife, c.Consumer, e.Summary()))
+		for _, f := range fs {
+			f.F["fnkind"] = "replaced-output"
+			r.Violate(f.F, f.Detail+fmt.Sprintf("\n  %s %s registration, output %d (%s) removed and registered again (%s) with another constructor", c.Life, c.Form, c.Replace, id, c.ReplLife), c)
+		}
+	}
+	if r.Only != nil {
+		var c c04ReplaceCase
+		if json.Unmarshal(r.Only, &c) == nil && c.Form != "" {
+			run(c)
+		}
+		return
+	}
+	for _, life := range []string{"singleton", "scoped", "transient"} {
+		for _, form := range []string{"multi", "resobj", "alias2"} {
+			for rep := 0; rep < 2; rep++ {
+				for _, rl := range []string{"singleton", "scoped", "transient"} {
+					for _, cons := range []bool{false, true} {
+						run(c04ReplaceCase{Life: life, Form: form, Replace: rep, ReplLife: rl, Consumer: cons})
 					}
 				}
 			}
